@@ -25,7 +25,7 @@ package tls
 //@ spec tail12(r) = string(r[24:]) == downgradeCanaryTLS12
 //@ spec tail11(r) = string(r[24:]) == downgradeCanaryTLS11
 //@ func (*UConn).clientHandshake
-//@   property C01 C12 C13 C19
+//@   property C01 C12 C13 C19 C20
 //@   unchecked safety pre
 //@   note unchecked: thin contract, see the comment above; panic-freedom of this function and the preconditions of its callees are listed assumptions
 //@   requires c != nil && c.HandshakeState.Hello != nil
@@ -37,6 +37,8 @@ package tls
 //@   at before call getPublicPtr#0: assert nodowngrade12: callres(maxSupportedVersion, 0) == VersionTLS12 && c.vers <= VersionTLS11 ==> !tail11(arg0.random)
 //@   at before call handshake#0: assert hs12_hello: arg0.hello == callres(getPrivatePtr, 0) && arg0.serverHello == callarg(pickTLSVersion, 0, 1)
 //@   at before call handshake#1: assert hs13_hello: arg0.hello == callres(getPrivatePtr, 0) && arg0.serverHello == callarg(pickTLSVersion, 0, 1)
+//@   at before call writeHandshakeRecord#0: assert locked_session_used: sessionIsLocked && ech == nil ==> session == c.HandshakeState.Session
+//@   note locked_session_used (C20: an injected session is used exactly as given): with a locked session controller the handshake continues with the session the controller put into HandshakeState -- it is not dropped or replaced on the way (stated for the non-ECH path: the ECH branch calls uncontracted code in between)
 //@   at before call writeHandshakeRecord#0: assert evict_registered: session != nil ==> deferred(clientHandshake$2)
 //@   note evict_registered (C19: a failed resumption never breaks the next handshake): whenever a session is offered -- loaded from the cache or injected and locked -- the deferred cleanup that drops the cached entry after a failed handshake is registered
 //@   loop 0 invariant -1 <= $rangeindex
